@@ -317,3 +317,12 @@ def rule_inventory(ctx):
 
 
 RULES.append(("C04.m", "state-mutation inventory: no new site that changes the content of the state this property rests on", rule_inventory))
+
+
+
+def rule_awaits(ctx):
+    from . import inventory
+    inventory.check_awaits(ctx, None)
+
+
+RULES.append(("C04.n", "await inventory: only futures whose completion rule is covered are polled on the delivery path", rule_awaits))
